@@ -273,6 +273,47 @@ fn run(case: &Value) -> Value {
                 None => json!({ "ok": null }),
             }
         }
+        "db_units" => {
+            // distinct units of the constants in the shipped database files (db/*.bin.gz under the repository)
+            let dir = case["dir"].as_str().unwrap_or("/repo/db");
+            let mut seen = std::collections::BTreeSet::new();
+            let mut out = Vec::new();
+            let mut count = 0usize;
+            let mut entries: Vec<_> = match std::fs::read_dir(dir) { Ok(d) => d.filter_map(|e| e.ok()).map(|e| e.path()).collect(), Err(e) => return json!({ "err": e.to_string() }) };
+            entries.sort();
+            for path in entries {
+                if !path.to_string_lossy().ends_with(".bin.gz") { continue; }
+                let file = match std::fs::File::open(&path) { Ok(f) => f, Err(e) => return json!({ "err": e.to_string() }) };
+                let v: serde_cbor::Value = match serde_cbor::from_reader(flate2::read::GzDecoder::new(file)) { Ok(v) => v, Err(e) => return json!({ "err": format!("{}: {}", path.display(), e) }) };
+                let consts = match &v { serde_cbor::Value::Map(m) => m.get(&serde_cbor::Value::Text("constants".into())).cloned(), _ => None };
+                if let Some(serde_cbor::Value::Array(cs)) = consts {
+                    for c in cs {
+                        let bytes = match serde_cbor::to_vec(&c) { Ok(b) => b, Err(_) => continue };
+                        match serde_cbor::from_slice::<anything::Constant>(&bytes) {
+                            Ok(k) => {
+                                count += 1;
+                                let u = unit_json(&k.unit);
+                                if seen.insert(u.to_string()) { out.push(json!({ "unit": u, "text": k.unit.to_string(), "example": k.description.to_string(), "value": rat_json(&k.value) })); }
+                            }
+                            Err(_) => {}
+                        }
+                    }
+                }
+            }
+            json!({ "ok": out, "constants": count })
+        }
+        "cbor_roundtrip" => {
+            // Numeric (rational + unit expression) through serde_cbor and the rational also through serde_json
+            let n = match numeric_from(&case["numeric"]) { Ok(a) => a, Err(e) => return json!({ "err": format!("bad case: {}", e) }) };
+            let ub = match serde_cbor::to_vec(&n.unit) { Ok(b) => b, Err(e) => return json!({ "err": format!("encode unit: {}", e) }) };
+            let u2: anything::Compound = match serde_cbor::from_slice(&ub) { Ok(u) => u, Err(e) => return json!({ "err": format!("decode unit: {}", e) }) };
+            let rb = match serde_cbor::to_vec(&n.value) { Ok(b) => b, Err(e) => return json!({ "err": format!("encode rational: {}", e) }) };
+            let r2: Rational = match serde_cbor::from_slice(&rb) { Ok(u) => u, Err(e) => return json!({ "err": format!("decode rational: {}", e) }) };
+            let rj = match serde_json::to_string(&n.value) { Ok(b) => b, Err(e) => return json!({ "err": format!("json encode: {}", e) }) };
+            let r3: Rational = match serde_json::from_str(&rj) { Ok(u) => u, Err(e) => return json!({ "err": format!("json decode: {}", e) }) };
+            json!({ "ok": { "unit_equal": u2 == n.unit, "unit_text": [n.unit.to_string(), u2.to_string()], "unit": unit_json(&u2), "rational_cbor_equal": r2 == n.value, "rational_json_equal": r3 == n.value } })
+        }
+        "open_sequence" => open_sequence(case),
         "unit_display" => {
             let c = match compound_from(&case["unit"]) { Ok(a) => a, Err(e) => return json!({ "err": format!("bad case: {}", e) }) };
             json!({ "ok": { "text": c.to_string(), "plural": c.display(true).to_string() } })
@@ -308,7 +349,104 @@ fn run(case: &Value) -> Value {
     }
 }
 
+const PROBES: &[&str] = &["mass of earth to kg", "population finland", "population sweden + population finland", "diameter moon to km"];
+
+fn probe_answers(db: &anything::Db) -> Vec<Value> {
+    let mut out = Vec::new();
+    for q in PROBES {
+        let parsed = match anything::parse(q) { Ok(p) => p, Err(e) => { out.push(json!({"err": e.to_string()})); continue; } };
+        let mut descriptions = Vec::new();
+        let mut rs = Vec::new();
+        for r in anything::query(&parsed, db, anything::Options::default(), &mut descriptions) {
+            match r { Ok(n) => rs.push(json!({"ok": rat_json(&n.value), "unit": n.unit.to_string()})), Err(e) => rs.push(json!({"err": e.to_string()})) }
+        }
+        out.push(json!(rs));
+    }
+    out
+}
+
+/// child process: one start of the on-disk database under the environment prepared by the parent
+fn open_once() {
+    let out = match anything::Db::open() {
+        Ok(db) => json!({ "ok": probe_answers(&db) }),
+        Err(e) => json!({ "err": format!("{:#}", e) }),
+    };
+    println!("{}", out);
+}
+
+fn run_child(base: &std::path::Path, crash: Option<&str>) -> (Option<i32>, String) {
+    let exe = std::env::current_exe().expect("current exe");
+    let mut cmd = std::process::Command::new(exe);
+    cmd.arg("--open-once").env("XDG_DATA_HOME", base).env("HOME", base).env_remove("ANYTHING_VERIF_CRASH_AFTER");
+    if let Some(c) = crash { cmd.env("ANYTHING_VERIF_CRASH_AFTER", c); }
+    match cmd.output() {
+        Ok(o) => (o.status.code(), String::from_utf8_lossy(&o.stdout).to_string()),
+        Err(e) => (Some(-1), format!("spawn: {}", e)),
+    }
+}
+
+fn open_sequence(case: &Value) -> Value {
+    use std::fs;
+    let root = std::path::PathBuf::from(case["scratch"].as_str().unwrap_or("/tmp/verif-c15"));
+    let _ = fs::remove_dir_all(&root);
+    let base = root.join("data");
+    let data = base.join("facts");
+    // what the current metadata looks like: learnt from a clean start in a second directory
+    let refbase = root.join("ref");
+    let (code, _) = run_child(&refbase, None);
+    if code != Some(0) { return json!({ "err": "reference start failed" }); }
+    let cur_meta: Value = match fs::read_to_string(refbase.join("facts").join("meta.json")).ok().and_then(|s| serde_json::from_str(&s).ok()) { Some(v) => v, None => return json!({ "err": "no reference meta.json" }) };
+    // index state
+    let index = &case["index"];
+    let _ = fs::create_dir_all(&data);
+    if index == "absent" {
+    } else if index == "broken" {
+        let _ = fs::create_dir_all(data.join("index"));
+        let _ = fs::write(data.join("index").join("meta.json"), b"{ not an index");
+    } else if index[1] == "cur" {
+        let (code, _) = run_child(&base, None);
+        if code != Some(0) { return json!({ "err": "could not build the initial index" }); }
+    } else if index[1] == "empty" {
+        let (code, _) = run_child(&base, Some("index-created#1"));
+        if code == Some(0) { return json!({ "ok": { "unrealisable": true } }); }
+    } else {
+        return json!({ "ok": { "unrealisable": true } });
+    }
+    // metadata state
+    let meta = &case["meta"];
+    let meta_path = data.join("meta.json");
+    if meta == "absent" { let _ = fs::remove_file(&meta_path); }
+    else if meta == "garbage" { let _ = fs::write(&meta_path, b"{\"version\": "); }
+    else {
+        let pick = |k: &str, which: &Value| -> Value {
+            if which == "cur" { cur_meta[k].clone() } else if which == "other" { json!("something-else") } else { Value::Null }
+        };
+        let m = json!({ "version": pick("version", &meta[1]), "database_hash": pick("database_hash", &meta[2]) });
+        let _ = fs::write(&meta_path, serde_json::to_vec(&m).unwrap_or_default());
+    }
+    // the starts
+    let names = case["crash_names"].as_array().cloned().unwrap_or_default();
+    let mut log = Vec::new();
+    for (i, n) in names.iter().enumerate() {
+        if i >= 2 { break; }
+        let crash = n.as_str();
+        let (code, out) = run_child(&base, crash);
+        if crash.is_some() && code == Some(0) { return json!({ "ok": { "unrealisable": true, "why": format!("start {} did not reach crash point {:?}", i, crash) } }); }
+        let parsed: Value = serde_json::from_str(out.trim()).unwrap_or(Value::Null);
+        log.push(json!({ "crash": crash, "exit": code, "answers": parsed.get("ok").cloned().unwrap_or(Value::Null), "error": parsed.get("err").cloned().unwrap_or(Value::Null) }));
+    }
+    let (code, out) = run_child(&base, None);
+    let answers: Value = serde_json::from_str(out.trim()).unwrap_or(json!({ "err": format!("exit {:?}: {}", code, out.trim()) }));
+    let expected = match anything::Db::in_memory() { Ok(db) => json!(probe_answers(&db)), Err(e) => return json!({ "err": e.to_string() }) };
+    let _ = fs::remove_dir_all(&root);
+    json!({ "ok": { "final_start_ok": answers.get("ok").is_some(), "answers": answers.get("ok").cloned().unwrap_or(Value::Null), "error": answers.get("err").cloned().unwrap_or(Value::Null), "expected": expected, "starts": log } })
+}
+
 fn main() {
+    if std::env::args().any(|a| a == "--open-once") {
+        open_once();
+        return;
+    }
     std::panic::set_hook(Box::new(|_| {}));
     let stdin = std::io::stdin();
     let stdout = std::io::stdout();
